@@ -44,3 +44,18 @@ Definition check_c02 (c : Z * stmt * list Z) : Z :=
       | _, None => 4
       end
   end.
+
+(** C18: 0 = emitted length <= shortest valid encoding of the denoted instruction; 5 = longer;
+    4 = outside the compact-form families; 1/2 = the bytes do not decode to the statement (C01's business) *)
+From Gosk Require Import Spec.X86Len.
+Definition check_c18 (c : Z * stmt * list Z) : Z :=
+  let '(m, st, bs) := c in
+  let bm := if m =? 16 then B16 else B32 in
+  match denote bm st with
+  | None => 4
+  | Some want =>
+      match shortest bm want with
+      | None => 4
+      | Some best => if zlen bs <=? best then 0 else 5
+      end
+  end.
